@@ -58,12 +58,27 @@ def gen_scenario(rng, prop="C03"):
     return {"leaves": nleaves, "threads": threads, "fire_all": waits or rng.random() < 0.8}
 
 
+def gen_fine(rng):
+    """two or three threads triggering the operands of AND composites at the same moment"""
+    nleaves = rng.randint(2, 3)
+    threads = [[["and", nleaves, 0, 1]] + ([["and", nleaves + 1, nleaves, nleaves - 1]] if rng.random() < 0.4 else [])]
+    # the triggers start only once the composites exist: they are separate threads gated by the variable table
+    for v in range(nleaves):
+        threads.append([["await", nleaves], ["go", v]])
+    return {"leaves": nleaves, "threads": threads[:NT - 1], "fire_all": False, "fine": True}
+
+
 def shape(sc):
+    if sc.get("fine"):
+        return "fine:l%d:t%d" % (sc["leaves"], len(sc["threads"]))
     ab = {"or": "o", "and": "a", "go": "g", "drop": "d", "thenuser": "u", "nest": "N", "waitor": "w"}
     return "l%d:%s%s" % (sc["leaves"], "/".join("".join(ab[o[0]] for o in t) for t in sc["threads"]), ":F" if sc["fire_all"] else "")
 
 
 def run_scenario(sc, chooser=None, seed=0, max_steps=30000):
+    """sc["fine"]: the AndSignals countdown is NOT an atomic section: every read and write of `remaining` and every
+    operation on its lock is a pre-emption point (monitor-only runs: the trace is not replayed through the model)"""
+    fine = bool(sc.get("fine"))
     ds.install()
     ds.reset_globals()
     from mo_threads import signals
@@ -143,7 +158,7 @@ def run_scenario(sc, chooser=None, seed=0, max_steps=30000):
             try:
                 sched.yield_point(("m2", "run"))
                 step("run " + jobdesc(self.target))
-                if isinstance(getattr(self.target, "__self__", None), AndSignals):
+                if isinstance(getattr(self.target, "__self__", None), AndSignals) and not fine:
                     vt.atomic = 1        # the countdown step (decrement under its own lock, go() at zero) is one model step
                 return self.target(*a)
             finally:
@@ -294,6 +309,26 @@ def run_scenario(sc, chooser=None, seed=0, max_steps=30000):
             step("waitS %d" % sid[id(self)])
         return r
 
+    class YieldSlot(object):
+        """AndSignals.remaining in fine mode: a pre-emption point before every read and write"""
+        def __init__(self, desc):
+            self.desc = desc
+
+        def __get__(self, obj, typ=None):
+            if obj is None:
+                return self
+            if active():
+                sched.yield_point(("m2", "R-remaining"))
+            return self.desc.__get__(obj, typ)
+
+        def __set__(self, obj, value):
+            if active():
+                sched.yield_point(("m2", "W-remaining"))
+            self.desc.__set__(obj, value)
+    rem_desc = AndSignals.__dict__["remaining"]
+    if fine:
+        AndSignals.remaining = YieldSlot(rem_desc)
+
     Signal.then, Signal.go, signals.Never.go, Signal.remove_then = then_w, go_w, never_go_w, remove_w
     Signal.__bool__, Signal.__or__, Signal.__ror__, Signal.__and__ = bool_w, or_w, or_w, and_w
     OrSignal.__init__, AndSignals.__init__, Signal.wait = orinit_w, andinit_w, wait_w
@@ -345,6 +380,8 @@ def run_scenario(sc, chooser=None, seed=0, max_steps=30000):
                     line("call %d %s %d %d" % (ti, "mkAnd" if how == "or-and" else "mkOr", zid(tmp), zid(c)))
                     vars_[v] = (vars_[tmp] & vars_[c]) if how == "or-and" else (vars_[tmp] | vars_[c])
                     drop(tmp)
+                elif k == "await":
+                    sched.wait_cond(lambda: op[1] in vars_)
                 elif k == "go":
                     if zid(op[1]) is None:
                         continue
@@ -441,6 +478,7 @@ def run_scenario(sc, chooser=None, seed=0, max_steps=30000):
         Signal.__bool__, Signal.__or__, Signal.__ror__, Signal.__and__ = orig["bool"], orig["or"], orig["or"], orig["and"]
         OrSignal.__init__, AndSignals.__init__, Signal.wait = orig["orinit"], orig["andinit"], orig["wait"]
         OrSignal.cleanup = orig["cleanup"]
+        AndSignals.remaining = rem_desc
         vars_.clear()
         gc.enable()
     lines.append("end %s" % outcome)
